@@ -87,11 +87,13 @@ CLAIMS = {
          "DESIGN.md 5 C20",
          "Structural sufficient condition: in code reachable from fork instructions/precompiles every loop bound and every allocation/copy size is a constant or entailed to be at most the length of a buffer that already exists; the fee itself is C12.",
          "constants of proportionality and work inside host callbacks/StateDB are not decided. One known finding (long-string loop of opReferenceChangeJournal) is listed in known_findings.json. " + TRUST),
+ "C11": ("SSA path enumeration over saveKey/saveChange (refused means unmodified) and AddChild (what is indexed by name is what is returned and flat-indexed); E3 lossless-conversion obligations on offsets; who-may-write on the key tables",
+         "DESIGN.md 5 C11, 12",
+         "Structural necessary conditions only: a refused registration or journal modifies nothing; offsets beyond 31 are refused, never truncated onto another offset; on every path of AddChild the node indexed by name is the node returned (the only one that reaches the flat slot/offset/type index); the tables have no other writers.",
+         "does NOT decide idempotence, exact child sets or agreement of the two look-up paths after arbitrary histories (needs a reference model and exploration). One known finding (AddChild path) is listed in known_findings.json. " + TRUST),
 }
 
-NA = {
- "C11": "Not claimed. The property quantifies over all finite sequences of registrations and journals (idempotence, exact child sets, agreement of two look-up paths after any history); deciding it needs a reference model and exploration of histories, which is outside static analysis. The only structural clause found (AddChild indexes one object by name and returns another when (slot, offset) is already present with a different name/type, DESIGN section 6 F12) was read but no exact, behaviour-insensitive rule for it was built in the time available; an honest not-applicable beats a brittle proxy.",
-}
+NA = {}
 
 checks = []
 na = []
